@@ -1240,7 +1240,7 @@ pub fn checks() -> Vec<Check> {
             Scenario { name: "free-mixed", weight: 2, max_polls: 400_000, max_virtual_secs: 48 * 3600, run: sc_free },
             Scenario { name: "free-local-minimal", weight: 1, max_polls: 400_000, max_virtual_secs: 48 * 3600, run: sc_free_minimal },
         ],
-        quick: (6_000, 50),
+        quick: (9_000, 50),
         thorough: (150_000, 600),
         rule: "each evaluation is one seeded run: owner on A, 1..5 lock instances (RwLock/ReadLock; on A, on B, on C directly or forwarded through B, on A after a round trip; cold or warmed cache), \
 1..5 tasks (several may share an instance) with up to 12 read / write+commit / write+drop operations holding their guards for drawn numbers of yields and virtual sleeps, scheduler policy, link profiles, \
